@@ -29,6 +29,10 @@ pub fn run(ctx: &Ctx) -> Outcome {
     }
     run_and_report(ctx, &mtu_v6(ctx.tier, Some(1300), 1, d), &mut out);
     run_and_report(ctx, &mtu_v6(ctx.tier, None, 0, d), &mut out);
+    // a jumbo link: probe sizes beyond the initial congestion window
+    for r in [0usize, 1] {
+        run_and_report(ctx, &mtu_jumbo(ctx.tier, r, d), &mut out);
+    }
     // small writes: short segments on the slots where a probe is due, lost together with their retransmission
     for r in [0usize, 1] {
         run_and_report(ctx, &nagle_mtu(ctx.tier, true, r, ctx.tier.pick(6, 8)), &mut out);
